@@ -179,19 +179,30 @@ def macro_stage(rep, rng, sc, n):
             cases.append((pos, s))
     for _ in range(n):
         cases.append((rng.choice(MACRO_POSITIONS), ''.join(rng.choice(MACRO_PIECES) for _ in range(rng.randrange(1, 6)))))
+    evalue = {}
+    # exact sizes: a macro value (given with -D) that ends exactly on / one below / one above every capacity of the buffer expandmacros()
+    # builds the string in (64 bytes, doubling; tools/lbuf.py), alone, after literal text, before literal text and after another macro
+    xpos = [p for p in MACRO_POSITIONS if p[0] in ('move', 'label', 'add-header value', 'command', 'maildir path')]
+    for ln in lbuf.exact_lengths(sc.src, 60, 1100):
+        for k, (s, vlen) in enumerate((('${e}', ln), ('x${e}', ln - 1), ('${e}y', ln), ('${a}${e}${a}', ln - 1))):
+            pos = xpos[(k + ln) % len(xpos)]
+            evalue[len(cases)] = bytes(65 + i % 26 for i in range(vlen))
+            cases.append((pos, s))
+    stat_exact = len(evalue)
     sticky = [rng.random() < 0.3 for _ in cases]          # -D b=B: the definition of b in the file is dropped
     reqs, sreqs = [], []
-    for (pos, s), st in zip(cases, sticky):
+    for ci, ((pos, s), st) in enumerate(zip(cases, sticky)):
         conf = MACRO_FILE + pos[2] % s + '\n'
-        defs = [(b'e', b'E${a}')] + ([(b'b', b'B')] if st else [])
-        table = [(k, (b'B' if (st and k == b'b') else v)) for k, v in MACRO_TABLE]
+        ev = evalue.get(ci, b'E${a}')
+        defs = [(b'e', ev)] + ([(b'b', b'B')] if st else [])
+        table = [(k, (b'B' if (st and k == b'b') else ev if k == b'e' else v)) for k, v in MACRO_TABLE]
         reqs.append('conf %s %s %s' % (vlib.hexs(conf.encode()), vlib.hexs(b'/home/u'), ' '.join('%s %s' % (vlib.hexs(k), vlib.hexs(v)) for k, v in defs)))
         sreqs.append('S mexpand %s %s %s' % (vlib.hexs(b'1' if pos[1] else b'0'), vlib.hexs(s.encode()),
                                             ' '.join('%s %s' % (vlib.hexs(k), vlib.hexs(v)) for k, v in table)))
     impl = vlib.run_batch([h], reqs, henv)
     spec = vlib.run_batch([vlib.driver_path()], sreqs)
-    bad, stat = [], {'cases': len(cases), 'expanded': 0, 'errors': 0, 'with_reference': 0, 'sticky': sum(sticky)}
-    for (pos, s), st, im, sp in zip(cases, sticky, impl, spec):
+    bad, stat = [], {'cases': len(cases), 'exact_size_values': stat_exact, 'expanded': 0, 'errors': 0, 'with_reference': 0, 'sticky': sum(sticky)}
+    for ci, ((pos, s), st, im, sp) in enumerate(zip(cases, sticky, impl, spec)):
         if '${' in s:
             stat['with_reference'] += 1
         what = None
@@ -214,7 +225,8 @@ def macro_stage(rep, rng, sc, n):
         else:
             what = 'driver answered %s' % sp[:100]
         if what:
-            bad.append({'position': pos[0], 'action_context': pos[1], 'string': s, 'D_b': st, 'what': what})
+            bad.append({'position': pos[0], 'action_context': pos[1], 'string': s, 'D_b': st, 'what': what[:600],
+                        'D_e': ('%d bytes: ' % len(evalue[ci]) + evalue[ci].decode()) if ci in evalue else 'E${a}'})
     for b in bad[:5]:
         rep.finding('unlisted', dict(b, kind='parse-time macro expansion'))
     return stat, bad
